@@ -30,22 +30,26 @@ impl<T: StateWrite + ?Sized> IbcSendShim for T {}
 '''
 
 HARNESS = r'''
-    fn setup() -> (CheckedIcs20Withdrawal, [u8; ADDRESS_LEN], Option<(Address, EventId, u64)>, [u8; ADDRESS_LEN], IbcPrefixed, u128, ChannelId, bool) {
+    /// denom_mode: 0 = trace-prefixed denom; 1 = ibc-prefixed form of an asset that is NOT of sequencer origin on this channel; 2 = ibc-prefixed form of a sequencer-origin asset
+    fn setup(denom_mode: u8) -> (CheckedIcs20Withdrawal, [u8; ADDRESS_LEN], Option<(Address, EventId, u64)>, [u8; ADDRESS_LEN], IbcPrefixed, u128, ChannelId, bool) {
         reset_store();
         unsafe { PACKETS_SENT = 0; }
         let signer: [u8; ADDRESS_LEN] = kani::any();
-        let denom = Denom::any();
+        let trace = TracePrefixed::any();
         let amount: u128 = kani::any();
         let bridge = if kani::any() { Some(Address::any()) } else { None };
+        let packet = IBCPacket::new(PortId(kani::any()), ChannelId(kani::any()), 0, 1, 0);
+        let chan = packet.chan;
+        // the asset is of sequencer origin on this channel (to be escrowed, not burned) iff its trace does NOT start with the source port/channel -- whichever way the user names it
+        let escrowed = !(trace.seg[0] == Some((packet.port.0, packet.chan.0)));
+        if denom_mode == 1 { kani::assume(!escrowed); }
+        if denom_mode == 2 { kani::assume(escrowed); }
+        let denom = if denom_mode == 0 { Denom::TracePrefixed(trace) } else { Denom::IbcPrefixed(trace.to_ibc_prefixed()) };
         let action = Ics20Withdrawal { amount, denom, bridge_address: bridge, return_address: Address::any() };
         // as constructed by `new`: funds leave the bridge account if one is named, otherwise the signer's own account
         let withdrawal_address = match bridge { Some(b) => b.bytes, None => signer };
         let ev = EventId(kani::any()); let bn: u64 = kani::any();
         let brw = bridge.map(|b| (b, Ics20WithdrawalFromRollup { rollup_block_number: bn, rollup_withdrawal_event_id: ev, rollup_return_address: Text(1) }));
-        let packet = IBCPacket::new(PortId(kani::any()), ChannelId(kani::any()), 0, 1, 0);
-        let chan = packet.chan;
-        // sequencer-origin (escrowed, not burned) iff the denom is trace-prefixed and NOT prefixed with the source port/channel
-        let escrowed = match denom { Denom::TracePrefixed(t) => !(t.seg[0] == Some((packet.port.0, packet.chan.0))), Denom::IbcPrefixed(_) => false };
         let x = denom.to_ibc_prefixed();
         store().declare(Key::Balance(withdrawal_address, x));
         store().declare(Key::IbcChannelBalance(chan.0, x));
@@ -59,8 +63,17 @@ HARNESS = r'''
     #[kani::proof]
     #[kani::unwind(10)]
     #[kani::stub(alloc::fmt::format, crate::vx_stub_format)]
-    fn ics20_withdrawal_execute_contract() {
-        let (checked, signer, bridge, from, x, amount, chan, escrowed) = setup();
+    fn ics20_withdrawal_execute_contract() { withdrawal_contract(0); }
+    #[kani::proof]
+    #[kani::unwind(10)]
+    #[kani::stub(alloc::fmt::format, crate::vx_stub_format)]
+    fn ics20_withdrawal_execute_contract_foreign_asset_named_by_hash() { withdrawal_contract(1); }
+    #[kani::proof]
+    #[kani::unwind(10)]
+    #[kani::stub(alloc::fmt::format, crate::vx_stub_format)]
+    fn ics20_withdrawal_execute_contract_sequencer_asset_named_by_hash() { withdrawal_contract(2); }
+    fn withdrawal_contract(denom_mode: u8) {
+        let (checked, signer, bridge, from, x, amount, chan, escrowed) = setup(denom_mode);
         let r = checked.execute(State);
         let kb = Key::Balance(from, x); let ke = Key::IbcChannelBalance(chan.0, x);
         let b0 = store().peek_init(kb).unwrap_or(0); let e0 = store().peek_init(ke).unwrap_or(0);
@@ -92,7 +105,7 @@ HARNESS = r'''
     #[kani::unwind(10)]
     #[kani::stub(alloc::fmt::format, crate::vx_stub_format)]
     fn canary_ics20_withdrawal_ok_reachable() {
-        let (checked, _s, _b, _f, _x, _a, _c, _e) = setup();
+        let (checked, _s, _b, _f, _x, _a, _c, _e) = setup(0);
         assert!(checked.execute(State).is_err());   // must FAIL
     }
 '''
@@ -120,6 +133,11 @@ UNIT = dict(
     harnesses=[
         dict(name="ics20_withdrawal_execute_contract",
              obligation="CheckedIcs20Withdrawal::execute::ensures#authority(withdrawer-or-own-funds)+event-id-fresh-then-recorded-under-bridge+exact-debit+escrow-iff-sequencer-origin+frame"),
+        dict(name="ics20_withdrawal_execute_contract_foreign_asset_named_by_hash",
+             obligation="CheckedIcs20Withdrawal::execute::ensures#authority+event-id+exact-debit+escrow-iff-sequencer-origin+frame[foreign asset named by its ibc/ hash]"),
+        dict(name="ics20_withdrawal_execute_contract_sequencer_asset_named_by_hash",
+             obligation="CheckedIcs20Withdrawal::execute::ensures#authority+event-id+exact-debit+escrow-iff-sequencer-origin+frame[sequencer-origin asset named by its ibc/ hash]",
+             finding="K3", only_for=["C18", "C01"]),
         dict(name="canary_ics20_withdrawal_ok_reachable", expect="fail"),
     ],
     assumptions=["A-store typed accessors over the symbolic store; penumbra send_packet_check/send_packet_execute are stand-ins (arbitrary check outcome, sends counted)",
